@@ -191,11 +191,10 @@ BatchVerdict(bal, e, h, rates, avgs) ==
   ELSE IF ~Pass2(bal[e.txs[1].a], e, h, rates, avgs, 1) THEN -1
   ELSE h
 
-\* Burn address of transfers (outputs to it are destroyed): from 2.0.2 the global burn address.
-\* Before 2.0.2 the implementation compares with the zero value of the address type
-\* (deviation DevZeroAddressOutputDestroyed); the intended design credits every recipient.
+\* Burn address of transfers (outputs to it are destroyed): the old burn address (the all-zero address) before
+\* 2.0.2, the global burn address from 2.0.2 on.
 IsBurnOutput(a, h) == \/ (h >= Act("V202") /\ a = "BURN")
-                      \/ (h < Act("V202") /\ a = "NULL" /\ "DevZeroAddressOutputDestroyed" \in Deviations)
+                      \/ (h < Act("V202") /\ a = "OLDBURN")
 
 \* Effects of an executed batch on the balances, and the converted amounts it records.
 \* PEG requests of the legacy bank era are debited here and credited by the bank stage.
